@@ -734,6 +734,10 @@ func runC03(c *Ctx) {
 	for i := 0; i < 70; i++ {
 		one(genHeaderGrid(r, i), i%5 == 0)
 	}
+	// (d') comments: pairs of whitespace/case variants of one text, one profile and two inputs, both orders
+	for i, g := range c03CommentPairCases() {
+		one(g, i%4 == 0)
+	}
 	// (f)
 	for i := 0; i < 12; i++ {
 		one(genIncompatible(r), false)
